@@ -37,6 +37,8 @@ type vec struct {
 	Canon  hx.B    `json:"canon"`
 	Rel    hx.B    `json:"rel"`
 	RelFq  bool    `json:"relfq"`
+	IsFq   bool    `json:"isfq"`
+	FqdnT  hx.B    `json:"fqdn"`
 	// pairs
 	A      hx.B `json:"a"`
 	B      hx.B `json:"b"`
@@ -266,8 +268,11 @@ func helpers(v *vec, t string, sum *hx.Summary) {
 	if got := dns.CanonicalName(t); got != v.Canon.String() {
 		sum.Mis("names/canonicalname", fmt.Sprintf("CanonicalName(%q)=%q, spec %q", t, got, v.Canon.String()), v)
 	}
-	if got := dns.Fqdn(t); got != t {
-		sum.Mis("names/fqdn", fmt.Sprintf("Fqdn(%q)=%q", t, got), v)
+	if got := dns.Fqdn(t); got != v.FqdnT.String() {
+		sum.Mis("names/fqdn", fmt.Sprintf("Fqdn(%q)=%q, spec %q", t, got, v.FqdnT.String()), v)
+	}
+	if got := dns.IsFqdn(t); got != v.IsFq {
+		sum.Mis("names/isfqdn", fmt.Sprintf("IsFqdn(%q)=%v, spec %v", t, got, v.IsFq), v)
 	}
 	if len(v.Rel) > 0 && !v.RelFq {
 		r := v.Rel.String()
